@@ -8,6 +8,7 @@ code -> spec : random trees built on disk as root (owners, set-id/sticky modes, 
 """
 import json, os, re
 import vlib
+from checks import cli_common
 
 TRACE_CFG = """SPECIFICATION TSpec
 CONSTANT TraceFile = "@TRACE@"
@@ -63,6 +64,8 @@ def drive(rep, pid, tier, seed, unpack):
 
 def run(rep, tier, seed):
     drive(rep, "C13", tier, seed, False)
+    # the command glue: `desync tar` onto an existing larger archive, the source directory spelled in equivalent ways, untar of the result
+    cli_common.run(rep, vlib.workdir("C13-cli"), seed, "tar", tier == "thorough")
     rep.rule = ("case = random tree of 5-45 nodes (nesting <= 4, fan-out <= 8, names of arbitrary bytes / with spaces / 50-250 characters, files of 0 / 1 / up to 3000 "
                 "bytes, symlinks incl. dangling and absolute, char and block devices, 10 modes incl. set-id/sticky, 6 owners up to 2^31-1, 6 mtimes with ns, user "
                 "xattrs), plus one flat directory for every fan-out 0..64 (0..400 thorough), each packed from disk and from an independent tar stream; "
@@ -71,6 +74,9 @@ def run(rep, tier, seed):
 
 def replay(path):
     d = json.load(open(path))
+    _r = cli_common.replay_if_cli(d, vlib.workdir("C13-cli-replay"))
+    if _r is not None:
+        return _r
     work = vlib.workdir("C13-replay")
     f = os.path.join(work, "trace.ndjson")
     vlib.write_ndjson(f, d["replay"]["events"])
